@@ -177,8 +177,6 @@ func CrashPart(run *report.Run, st *Setup, cases, pointsPerCase int, randomKills
 				return
 			}
 		}
-		if i == 0 {
-			run.Sample(map[string]any{"crash_case": i, "shape": s.Shape(), "points": total, "first_points": points[:min(12, len(points))], "history": env.Log})
-		}
+		run.Sample(map[string]any{"crash_case": i, "shape": s.Shape(), "points": total, "first_points": points[:min(12, len(points))], "history": env.Log})
 	})
 }
